@@ -216,6 +216,7 @@ def run_case(case):
                 WriteMultipleRegistersRequest(1, [0] * 200, unit=case['unit'])
             try:
                 client.execute(bad)
+                w.flush_writes()
             except transports.StepBudgetExceeded as e:
                 discs.append(Disc('no-termination', '%s: an unencodable request: %s' % (ckind, e)))
             except Exception:
@@ -230,6 +231,7 @@ def run_case(case):
             t1 = w.clock.t
             try:
                 client.execute(kinds.build('req:3', {'address': k_, 'quantity': 1}, unit=case['unit']))
+                w.flush_writes()
             except transports.StepBudgetExceeded as e:
                 discs.append(Disc('no-termination', '%s: unanswered call %d: %s' % (ckind, k_ + 1, e)))
             except Exception as e:
@@ -250,6 +252,7 @@ def run_case(case):
         result = None
         try:
             result = client.execute(req)
+            w.flush_writes()
         except transports.StepBudgetExceeded as e:
             discs.append(Disc('no-termination', '%s script %r settings %r: %s' % (ckind, case['script'], _settings(case), e)))
         except Exception as e:
